@@ -15,11 +15,16 @@ structure Run where
 /-- rectangular, weakly inside the reference box (and above the sentinel), lists as built by
 `preProcess`; `cls`: a coordinate may EQUAL the reference's only in the objectives `0, 1, 2` and in
 the last one (no restriction at all for `m ≤ 4` objectives) -/
-structure Run.OK (R : Run) : Prop where
+structure Run.Base (R : Run) : Prop where
   rect : Rect R.m R.rel
   inter : ∀ i k, i < R.rel.length → k < R.m → negInf < zc R.rel k i ∧ zc R.rel k i ≤ 0
-  cls : ∀ i k, i < R.rel.length → k < R.m → zc R.rel k i = 0 → k ≤ 2 ∨ k + 1 = R.m
   ord : OrdersOK R.rel R.m R.orders
+
+/-- `Run.Base` (rectangular, weakly inside the box, sweep lists as built by `preProcess`) plus the class
+restriction `cls` of the first version of the level invariant (see `Run.OK5` in `HypervolumeNd5a.lean`
+for the larger class) -/
+structure Run.OK (R : Run) : Prop extends Run.Base R where
+  cls : ∀ i k, i < R.rel.length → k < R.m → zc R.rel k i = 0 → k ≤ 2 ∨ k + 1 = R.m
 
 /-- list `k` of the multi-list restricted to the linked ids `S` -/
 def Run.lk (R : Run) (k : Nat) (S : List Nat) : List Nat := linked R.orders k S
@@ -110,7 +115,7 @@ theorem Frame.mono {d d' : Nat} {S S' : List Nat} {a b : St} (hdd : d ≤ d') (h
 /-! ### the restricted sweep lists -/
 
 section lk
-variable {R : Run} (hR : R.OK)
+variable {R : Run} (hR : R.Base)
 include hR
 
 theorem mem_lk {k : Nat} (hk : k < R.m) {S : List Nat} (hS : ∀ i ∈ S, i < R.rel.length) {x : Nat} :
@@ -167,7 +172,7 @@ theorem Cache.congr {R : Run} {k : Nat} {S : List Nat} {st st' : St} (h : Cache 
 
 /-- **cache monotonicity**: if the linked set changes only at nodes whose coordinate `k` is not
 below the new `bounds[k]`, the cache of level `k` stays valid -/
-theorem Cache.restrict {R : Run} (hR : R.OK) {k : Nat} (hk : k < R.m) {S S' : List Nat} {st st' : St}
+theorem Cache.restrict {R : Run} (hR : R.Base) {k : Nat} (hk : k < R.m) {S S' : List Nat} {st st' : St}
     (h : Cache R k S st)
     (hagree : ∀ y, zc R.rel k y < st'.bounds.getD k 0 → (y ∈ S ↔ y ∈ S'))
     (hn : ∀ x, (st'.node x).area.getD k 0 = (st.node x).area.getD k 0 ∧
@@ -346,7 +351,7 @@ theorem removeLoop_spec (d : Nat) : ∀ (rev removed : List Nat) (st : St),
 /-! ### dominance in fewer coordinates; single boxes; interior points -/
 
 section dom
-variable {R : Run} (hR : R.OK)
+variable {R : Run} (hR : R.Base)
 include hR
 
 theorem dom_step {j r x : Nat} (hr : r < R.rel.length) (hx : x < R.rel.length) (hj : j + 1 < R.m)
